@@ -460,10 +460,11 @@ def rules(repo, tier):
     from ..memo import rule_memo
     from ..optional import rule_optional
     from ..mode import mode_rules
+    from ..callsig import rule_callsig
     from ..axisdefault import rule_axisdefault
     return list(_rules_core(repo, tier)) + [rule_memo(repo, 'C13.MEMO', 'history independence: nothing computed from the contents of a tensor argument is kept '
                                                       'under the identity, address or version of that tensor, in module-level storage, or published from a generator '
                                                       'before it is complete - a later call with the same object and other contents must not be answered from it',
                                                       ['pypose.module.ekf', 'pypose.module.ukf', 'pypose.module.pf', 'pypose.module.dynamics'], floor=3),
-            rule_optional(repo, 'C13.OPT', ['pypose.module.ekf', 'pypose.module.ukf', 'pypose.module.pf', 'pypose.module.dynamics'])] + mode_rules(repo, 'C13', ['pypose.module.ekf', 'pypose.module.ukf', 'pypose.module.pf', 'pypose.module.dynamics']) + [
+            rule_optional(repo, 'C13.OPT', ['pypose.module.ekf', 'pypose.module.ukf', 'pypose.module.pf', 'pypose.module.dynamics'])] + mode_rules(repo, 'C13', ['pypose.module.ekf', 'pypose.module.ukf', 'pypose.module.pf', 'pypose.module.dynamics']) + [rule_callsig(repo, 'C13.SIG', ['pypose.module.ekf', 'pypose.module.ukf', 'pypose.module.pf', 'pypose.module.dynamics'])] + [
             rule_axisdefault(repo, 'C13.AXDEF', ['pypose.module.ekf', 'pypose.module.ukf', 'pypose.module.pf'])]
